@@ -11,7 +11,13 @@ import gen
 
 PID = "C05"
 LEAN_MODULES = ["MirProofs.Props.C05", "MirProofs.Props.C05_Transcription", "MirProofs.Props.C05_HK"]
-TRANSLATOR_PARTS = ["hkshape"]     # harness/translate/hkshape.py: util._bipartite_match still has the shape hkMatch was transliterated from
+# util._fast_hit_windows / util.match_events are REGENERATED (translate/evglue.py -> MirGen/EvGlue.lean); Props/C05_GenGlue.lean
+# states C05 on the translated definitions (hit pairs = the tolerance predicate, the returned pairing is valid and maximum)
+LEAN_MODULES += ["MirProofs.Props.C05_GenGlue"]
+# the transcription matching functions are REGENERATED too (translate/trmatch.py -> MirGen/TrMatch.lean); Props/C05_GenTr.lean
+# proves them equal to the hand model and states C05 (pairs satisfy all enabled criteria, one-to-one, maximum) on them
+LEAN_MODULES += ["MirProofs.Props.C05_GenTr"]
+TRANSLATOR_PARTS = ["hkshape", "evglue", "trmatch"]     # harness/translate/hkshape.py: util._bipartite_match still has the shape hkMatch was transliterated from
 RULE = ("bipartite graphs enumerated exhaustively (quick: all graphs up to 3x4 vertices, thorough: up to 4x5) "
         "and drawn at random up to 12x12 (thorough 40x40) incl. greedy-defeating gadgets; event sets on the "
         "1/32 s lattice with duplicates and pairs exactly at the window edge; a case is non-trivial when the "
@@ -384,6 +390,25 @@ SUITES = {"exhaustive_graphs": suite_exhaustive, "random_graphs": suite_random,
           "transcription_velocity.scores": _TR.SUITES["transcription_velocity.scores"],
           # multipitch per-frame true positives (raw and chroma-wrapped windows)
           "multipitch.num_true_positives": _MP.SUITES["mp_num_true_positives"]}
+# the REGENERATED util._fast_hit_windows / util.match_events (driver op gen.evglue) vs the real functions
+def suite_gen_evglue_util(rng, tier, shard, nshards):
+    import evglue_cases
+    for c in evglue_cases.util_cases(rng, tier):
+        yield c
+
+
+SUITES["gen_evglue.util"] = suite_gen_evglue_util
+
+
+# the REGENERATED transcription matching functions (translate/trmatch.py -> MirGen/TrMatch.lean, driver op gen.trmatch) vs the
+# real functions, on the existing transcription streams (the hand-model cases re-targeted at the generated definitions)
+def suite_gen_trmatch(rng, tier, shard, nshards):
+    import evglue_cases
+    for c in evglue_cases.trmatch_cases(rng, tier, shard, nshards):
+        yield c
+
+
+SUITES["gen_trmatch"] = suite_gen_trmatch
 # stream F: hit graphs / note sets / multi-f0 frames derived from the repository's fixture files
 from suites import fixtures as _FX  # noqa: E402
 for _k in ("matching", "transcription", "transcription_velocity", "multipitch"):
